@@ -135,8 +135,11 @@ func (t *TxController) Rollback(ctx context.Context) error {
 		return err
 	}
 	t.finalized = true
-	for _, fn := range t.onRollback {
-		if hookErr := fn(ctx); hookErr != nil && err == nil {
+	// Undo in reverse registration order: a later hook may have acted on the
+	// result of an earlier one (e.g. DeletePart of a part id that an earlier
+	// PutPart of the same transaction published).
+	for i := len(t.onRollback) - 1; i >= 0; i-- {
+		if hookErr := t.onRollback[i](ctx); hookErr != nil && err == nil {
 			err = hookErr
 		}
 	}
